@@ -27,6 +27,7 @@ type Ctx struct {
 	proveCache map[*State]map[string]bool
 	infeasCache map[*State]bool
 	proverCache map[*State]*bndProver
+	nilPtrPred map[*ssa.Function]bool
 }
 
 func newCtx(p *Program, prop, tier string) *Ctx {
